@@ -108,10 +108,10 @@ func modelAsync(p *gm.Program, h []Step, batch bool) (out []Step, unsup string) 
 }
 
 // runAsyncHistory executes the history on the engine, comparing the log after every drain.
-func (w *worker) runAsyncHistory(c Case, src string, h []Step, batch bool) (n int, vc *VCase, class string) {
+func (w *worker) runAsyncHistory(c Case, src string, h []Step, batch bool, caps int) (n int, vc *VCase, class string) {
 	e := w.engine()
 	mk := func(at int, lg []string, ft *fault) *VCase {
-		v := &VCase{Part: "async", Name: c.Name, Prog: c.Prog, Src: src, History: h, At: at, GotLog: lg, Batch: batch}
+		v := &VCase{Part: "async", Name: c.Name, Prog: c.Prog, Src: src, History: h, At: at, GotLog: lg, Batch: batch, Caps: caps}
 		if ft != nil {
 			v.Fault = ft.kind + ": " + ft.detail
 		}
@@ -146,6 +146,7 @@ func (w *worker) runAsyncHistory(c Case, src string, h []Step, batch bool) (n in
 		}
 		return nil, ""
 	}
+	setStackCaps(e.rt, caps)
 	lg, ft := call(func() error { _, err := e.astart(goja.Undefined()); return err })
 	n++
 	if vc, sig := check(0, lg, ft); vc != nil {
@@ -211,7 +212,7 @@ func (w *worker) asyncCase(c Case, idx int64) {
 					r.Add("model_unsupported_async", 1)
 					break
 				}
-				n, vc, class := w.runAsyncHistory(cc, src, exp, batch)
+				n, vc, class := w.runAsyncHistory(cc, src, exp, batch, stackCaps[(hi+int(idx))%len(stackCaps)])
 				r.Transitions(int64(n))
 				if !batch {
 					r.States(int64(len(h)))
